@@ -447,6 +447,25 @@ def check_sequence(run, runs, dnames, rng=None, level=2, only=None):
                         judge(prefix + "_gather_1d", gc, lambda: fns[0](data.copy(), ind), pg, **ex2)
                     if level >= 2 or (icls == "repeated" and kind == "array"):
                         judge(prefix + "_gatherer_1d", gc, lambda: fns[1](ind)(data.copy()), pg, **ex2)
+                    if (level >= 2 or icls == "repeated") and kind == "array" and n >= 2:
+                        # the documented use of a gatherer: built once for the indices, applied to
+                        # several encodings, every result kept.  The second encoding is the reversed
+                        # sequence; the first result is looked at only after the second call.
+                        seq2 = seq[::-1]
+                        enc2 = (ref_rle_encode if prefix == "rle" else ref_brle_encode)(runs_of(seq2), maxc)
+                        data2 = np.array(enc2, dtype=data.dtype)
+                        exp2 = [seq2[i] for i in idx]
+
+                        def reuse(ind=ind, data2=data2):
+                            gth = fns[1](ind)
+                            first = gth(data.copy())
+                            second = gth(data2)
+                            third = gth(data.copy())
+                            return first, second, third
+
+                        judge(prefix + "_gatherer_1d:reused", gc + (",same" if seq2 == seq else ",other"), reuse,
+                              lambda g: [int(x) for x in g[0]] == exp and [int(x) for x in g[1]] == exp2
+                              and [int(x) for x in g[2]] == exp and g[0] is not g[1] and g[0] is not g[2], **ex2)
                     if _is_sorted(idx):
                         judge("sorted_%s_gather_1d" % prefix, gc, lambda: list(fns[2](data.copy(), ind)),
                               lambda g: [int(x) for x in g] == exp, **ex2)
